@@ -18,7 +18,9 @@
         spec = [first; 1 or -1; last; 1 or -1].
     [bitmap.Next/count] [segs; tr; i; e] (e < 64*len): [rounds of the NextOne walk; of the PrevOne walk;
         Rank64(e) - Rank64(i)] with the index of IndexRank64(bm, tr) ([WalkCount]); spec = three times the
-        number of 1-bits of the range. *)
+        number of 1-bits of the range.
+    [bitmap.Of/walk] [ps; opt] (ps strictly ascending, non-negative; opt = [] or [n]): build with
+        Of(ps, n), walk the whole result with NextOne and with PrevOne; spec = [ps; rev ps]. *)
 From Coq Require Import ZArith List Bool String.
 From Low Require Import Lib.Bits Lib.BitSeq Lib.Val Model.BitmapNext Model.BitmapNext32 Model.BitmapNextIter
   Model.BitmapOf Model.BitmapNextReaders Spec.NextSpec.
@@ -80,6 +82,23 @@ Definition with_bm_i_e (a : list val) (dom : list Z -> Z -> Z -> bool) (f : list
       end
   | _ => VBad
   end.
+
+Definition as_optz (v : val) : option (option Z) :=
+  match v with
+  | VL [] => Some None
+  | VL [VZ n] => Some (Some n)
+  | _ => None
+  end.
+
+Fixpoint ascendingb (prev : Z) (l : list Z) : bool :=
+  match l with
+  | [] => true
+  | x :: t => (prev <? x) && ascendingb x t
+  end.
+
+(** strictly ascending, non-negative, and small enough for [64 * len < 2^31] *)
+Definition ofwalk_dom (ps : list Z) (opt : option Z) : bool :=
+  ascendingb (-1) ps && (last ps 0 <? 2^30) && match opt with Some n => n <? 2^30 | None => true end.
 
 Definition ops_C13_wide : list opdef := [
   {| op_name := "bitmap.NextOne/sparse";
@@ -149,5 +168,19 @@ Definition ops_C13_wide : list opdef := [
        | [bm; tr; i; e] => match as_bm bm, as_z i, as_z e with
            | Some bm, Some i, Some e => let c := zlen (ones_in bm i e) in vzs [c; c; c]
            | _, _, _ => VBad end
+       | _ => VBad end) |};
+  {| op_name := "bitmap.Of/walk";
+     op_run := fun a => match a with
+       | [ps; opt] => match as_zs ps, as_optz opt with
+           | Some ps, Some opt =>
+               if ofwalk_dom ps opt
+               then match OfWalk ps opt with Some (x, y) => VL [vzs x; vzs y] | None => VPanic end
+               else VBad
+           | _, _ => VBad end
+       | _ => VBad end;
+     op_spec := fun_spec (fun a => match a with
+       | [ps; opt] => match as_zs ps with
+           | Some ps => VL [vzs ps; vzs (rev ps)]
+           | None => VBad end
        | _ => VBad end) |}
 ].
